@@ -97,8 +97,12 @@ func newFlink(s, r *node, i int, ab *abortSig) *flink {
 
 // collect reads n messages of a topic from a node's inbox (the way the controller's listeners do).
 func collect(nd *node, topic lib.Topic, n int, out *[]delivered, mu *sync.Mutex, wg *sync.WaitGroup, timeouts *int, ab *abortSig) {
+	collectFor(90*time.Second, nd, topic, n, out, mu, wg, timeouts, ab)
+}
+
+func collectFor(d time.Duration, nd *node, topic lib.Topic, n int, out *[]delivered, mu *sync.Mutex, wg *sync.WaitGroup, timeouts *int, ab *abortSig) {
 	defer wg.Done()
-	deadline := time.After(90 * time.Second)
+	deadline := time.After(d)
 	for i := 0; i < n; i++ {
 		select {
 		case m := <-nd.p.Inbox(topic):
@@ -321,6 +325,7 @@ func scenarioC(n1, n2 *node, rep int, sum *raceSummary) {
 		return
 	}
 	chunk := K.MaxDataChunkSize
+	ab := newAbort()
 	type appSend struct {
 		from, to *node
 		topic    lib.Topic
@@ -332,7 +337,8 @@ func scenarioC(n1, n2 *node, rep int, sum *raceSummary) {
 		bz, _ := lib.Marshal(m)
 		sends = append(sends, appSend{from, to, topic, bz})
 		if err := from.p.SendTo(to.pub, topic, m); err != nil {
-			fmt.Fprintf(os.Stderr, "c18 race child: SendTo: %v\n", err)
+			// e.g. the peer was already dropped by canopy's own 3 s heartbeat timeout on a slow machine
+			ab.fire(err)
 		}
 	}
 	mk(n1, n2, tX, 1, chunk+10)
@@ -343,6 +349,7 @@ func scenarioC(n1, n2 *node, rep int, sum *raceSummary) {
 	mk(n1, n2, lib.Topic_CONSENSUS, 6, 500)
 	var mu sync.Mutex
 	var cwg sync.WaitGroup
+	realTimeouts := 0
 	got := map[*node]*[]delivered{n1: {}, n2: {}}
 	need := map[*node]map[lib.Topic]int{n1: {}, n2: {}}
 	for _, s := range sends {
@@ -351,10 +358,14 @@ func scenarioC(n1, n2 *node, rep int, sum *raceSummary) {
 	for nd, m := range need {
 		for t, n := range m {
 			cwg.Add(1)
-			go collect(nd, t, n, got[nd], &mu, &cwg, &sum.Timeouts, newAbort())
+			go collectFor(20*time.Second, nd, t, n, got[nd], &mu, &cwg, &realTimeouts, ab)
 		}
 	}
 	cwg.Wait()
+	if ab.fired() || realTimeouts > 0 {
+		sum.RepsDisturbed++
+		sum.DisturbedBy = "real path: " + ab.why
+	}
 	used := make([]bool, len(sends))
 	for nd, ds := range got {
 		for _, d := range *ds {
